@@ -33,7 +33,7 @@ from lib import stage
 
 ID = "C04"
 NEEDS_GEN = True
-LEAN_TARGETS = ["AiuVerif.Props.C04", "AiuVerif.Props.Order"]
+LEAN_TARGETS = ["AiuVerif.Props.C04", "AiuVerif.Props.Order", "AiuVerif.Props.C04Lanes"]
 THEOREMS = [
     "AiuVerif.C04.laminar_stage",
     "AiuVerif.C04.laminar_tid",
@@ -50,6 +50,9 @@ THEOREMS = [
     "AiuVerif.C04.lane_budget",
     "AiuVerif.C04.collide_chain_raises",   # converse of the budget branch at stage level
     "AiuVerif.C04.moved_only_if_offending",
+    # torch inputs with string tids: the lane names handed out at the end keep a moved slice off the lane it left
+    "AiuVerif.C04.moved_never_returns",
+    "AiuVerif.C04.same_origin_lanes_distinct",
     "AiuVerif.Order.overlap_order",   # registration order / guards / shared context, re-decided on the generated sites
 ]
 RULE = ("interval families as X events (plus counter events) on (pid,tid) lanes: exhaustive over one lane with "
@@ -60,6 +63,9 @@ RULE = ("interval families as X events (plus counter events) on (pid,tid) lanes:
         "a case is non-trivial when an overlap was resolved (a slice moved or dropped) or an error branch "
         "was taken; distinct = distinct (mode, event list)")
 TRUSTED = ["hash((pid, tid)) lane keys assumed injective on the generated domain",
+           "torch string tids: hash(<tid string>) assumed injective on the strings of one trace, and no original tid string is "
+           "itself of the form '<other tid> (<k>)' (then two DIFFERENT original lanes could be given one name; lanes of one "
+           "original lane are proved distinct)",
            "batch composition of the five stages is the engine theorem of C03, not re-proved here",
            "IEEE doubles: on the generated grids every comparison the code performs has the same outcome as on the "
            "exact rationals (grid spacing >> double rounding error)"]
@@ -533,6 +539,15 @@ def run(ctx: Ctx):
     # round(x, 4)
     xs = [Fraction(ctx.rng.randint(-2 ** 20, 2 ** 20), 2 ** ctx.rng.randint(0, 14)) for _ in range(ctx.n(400, 4000))]
     xs += [Fraction(2 * k + 1, 20000) for k in range(-4, 12)] + [Fraction(k, 32) for k in range(0, 33)]
+    # the lane names of torch slices with string tids: LaneLabel.laneLabel vs RefinementContext._restore_pid_tid
+    from aiu_trace_analyzer.pipeline.tb_refinement import RefinementContext
+    lab = [(o, k) for o in ("stream 11", "s", "PyTorch Profiler", "stream 7 (1)", "a_b", "x (2)", "Stream#3", "7a")
+           for k in range(0, 7)]
+    lab_out = ctx.driver.ask([f"c04 label {o.replace(' ', '~')} {k}" for o, k in lab])
+    for (o, k), m in zip(lab, lab_out):
+        real = RefinementContext._restore_pid_tid({"pid": 0, "tid": hash(o) + k, "args": {"otid": o}})["tid"]
+        ctx.compare("LaneLabel.laneLabel vs _restore_pid_tid (lane name of a torch slice k tids above hash(otid))",
+                    {"otid": o, "moved": k}, m.replace("~", " "), real)
     outs = ctx.driver.ask([line(c) for c in cases] + [f"c04 rnd4 {rat(x)}" for x in xs])
     for case, real, o in zip(cases, reals, outs):
         ctx.compare("overlap model vs registered sort/overlap stages ((uid,tid) stream leaving the last stage, error class)",
